@@ -33,8 +33,16 @@ def s1(ctx):
     obs = []
     for g, pq in GETTERS.items():
         pc = ctx.P.cls(pq)
-        gv = pc.methods.get("get_value")
-        adv = gv is not None and bool(_calls_named(gv, g))
+        # the get_value this class answers with (its own, or one it inherits from a shared base whose hooks are
+        # resolved for this class and spliced in)
+        try:
+            gv = ctx.own_method(pq, "get_value")
+        except AnalysisError:
+            gv = None
+        adv = False
+        if gv is not None:
+            gcfg = ctx.cfg(gv)
+            adv = any(isinstance(c.func, ast.Attribute) and c.func.attr == g for n in gcfg.stmt_nodes() for c in n.calls())
         obs.append(ctx.ob(adv, pq, "%s:%d" % (pc.module.rel, pc.node.lineno), "advertised from resource.%s()" % g,
                           "get_value reads resource.%s()" % g, "%s.get_value no longer reads resource.%s(): what is advertised is not what is created" % (pc.name, g)))
         users = [q for q in CREATORS if _calls_named(ctx.func(q), g)]
